@@ -154,8 +154,8 @@ R.record("WriteReport", {"ops_attempted": "int", "ops_written": "int", "errors":
 R.dictrec("EpisodeRec", {"id": "str", "owner": "str", "ts": "str", "kind": "str", "tags": "List[str]", "text": "str"})
 R.funtype("IndexAdd", params=["ep"], raises="Exception",
           effects_before=["attempts.append(1)"], effects=["successes.append(1)"])
-R.objtype("MemIndex", {"add": "IndexAdd", "kind": "Optional[str]"})
-R.optobj("OptMemIndex", "MemIndex")
+R.objtype("ReflMemIndex", {"add": "IndexAdd", "kind": "Optional[str]"})
+R.optobj("OptMemIndex", "ReflMemIndex")
 R.objtype("WState", {"memory_index": "OptMemIndex"})
 R.objtype("WResult", {"memory_entries": "List[Dict[str, Un[J]]]"})
 R.optobj("OptWResult", "WResult")
